@@ -308,6 +308,65 @@ def ceil_div(a, b):
     return ite(eq(rem(a, b), const(0)), d, add(d, const(1)))
 
 
+def evaluate(t, env, tables=None, memo=None):
+    """Concrete evaluation of a term (translator validation): env maps variable names to ints/bools,
+    tables maps uninterpreted table names to Python lists."""
+    memo = {} if memo is None else memo
+    r = memo.get(t._id)
+    if r is not None:
+        return r
+    op, a = t.op, t.args
+    ev = lambda x: evaluate(x, env, tables, memo)
+    if op == "const":
+        r = a[0]
+    elif op == "true":
+        r = True
+    elif op == "false":
+        r = False
+    elif op in ("var", "bvar"):
+        r = env[a[0]]
+    elif op == "+":
+        r = ev(a[0]) + ev(a[1])
+    elif op == "-":
+        r = ev(a[0]) - ev(a[1])
+    elif op == "*":
+        r = ev(a[0]) * ev(a[1])
+    elif op == "div":
+        d = ev(a[1])
+        r = ev(a[0]) // d if d else 0
+    elif op == "rem":
+        d = ev(a[1])
+        r = ev(a[0]) % d if d else 0
+    elif op == "ite":
+        r = ev(a[1]) if ev(a[0]) else ev(a[2])
+    elif op == "<":
+        r = ev(a[0]) < ev(a[1])
+    elif op == "<=":
+        r = ev(a[0]) <= ev(a[1])
+    elif op in ("=", "iff"):
+        r = ev(a[0]) == ev(a[1])
+    elif op == "not":
+        r = not ev(a[0])
+    elif op == "and":
+        r = all(ev(x) for x in a)
+    elif op == "or":
+        r = any(ev(x) for x in a)
+    elif op == "bitxor":
+        r = ev(a[0]) ^ ev(a[1])
+    elif op == "bitand":
+        r = ev(a[0]) & ev(a[1])
+    elif op == "bitor":
+        r = ev(a[0]) | ev(a[1])
+    elif op == "select":
+        r = a[1][ev(a[2])]
+    elif op == "uf":
+        r = tables[a[0]][ev(a[1])]
+    else:
+        raise ValueError("cannot evaluate %s" % op)
+    memo[t._id] = r
+    return r
+
+
 # ------------------------------------------------------------------------------------------------
 # Printing
 
